@@ -209,7 +209,7 @@ def case_strategy(draw, mode, max_ops, types=M.ALL_TYPES, allow_big=True):
 def numeric_addresses(dev, mdl):
     """Auto-allocated tags get their Message Router attribute number by inspection of the symbol table."""
     for s in dev.specs:
-        ids = dev.device.resolve_tag(s['name'])
+        ids = dev.resolve_tag(s['name']) if hasattr(dev, 'resolve_tag') else dev.device.resolve_tag(s['name'])
         assert ids is not None, 'tag %r not set up' % s['name']
         mdl.set_numeric_address(s['name'], ids)
 
@@ -294,9 +294,61 @@ def run_bundle(case, stats, clause, dev, mdl, sess, step, op, classes):
     return True
 
 
-def run_history(case, stats, pid, clause):
+class TcpBackend(object):
+    """The same history driver against a real TCP simulator started through enip.main.main() (one per process): tags are
+    built by main() itself from its command line; state is inspected in-process and reset to the simulator's own initial
+    values before every history."""
+
+    def __init__(self, specs):
+        self.server = sim.TcpServer(specs)
+        self.specs = self.server.specs
+        s = sim.TcpSession(self.server)
+        s.send(rc.req_read_tag([{'symbolic': specs[0]['name']}], 1))      # first request makes the simulator set up its tags
+        s.close()
+        self.initial = {sp['name']: list(self.server.values(sp['name'])) for sp in self.specs}
+        self.open = []
+
+    def reset(self):
+        for name, vals in self.initial.items():
+            self.server.set_values(name, list(vals))
+
+    def resolve_tag(self, name):
+        from cpppo.server.enip import device
+        return device.resolve_tag(name)
+
+    def snapshot(self):
+        return self.server.snapshot()
+
+    def values(self, name):
+        return self.server.values(name)
+
+    def session(self, addr):
+        t = sim.TcpSession(self.server, timeout=20.0)
+        t.alive = True
+        orig = t.send
+
+        def send(message, wrap=True, route_path=None):
+            out = orig(message, wrap=wrap, route_path=route_path)
+            if out['kind'] == 'timeout':
+                raise common.HarnessError('timeout waiting for the TCP simulator')
+            if out['reply'] is None:
+                t.alive = False
+            return out
+        t.send = send
+        self.open.append(t)
+        return t
+
+    def close(self):
+        for t in self.open:
+            t.close()
+        self.open = []
+
+
+def run_history(case, stats, pid, clause, backend=None):
     specs, ops = case['specs'], case['ops']
-    dev = sim.Device(specs)
+    dev = backend if backend is not None else sim.Device(specs)
+    if backend is not None:
+        backend.reset()
     try:
         mdl = M.Model(specs)
         numeric_addresses(dev, mdl)
@@ -307,7 +359,8 @@ def run_history(case, stats, pid, clause):
             s = sessions.get(k)
             if s is None or not s.alive:
                 port[0] += 1
-                s = sessions[k] = sim.Session(dev, ('127.0.0.%d' % (k + 1), port[0]))
+                s = sessions[k] = (dev.session(('127.0.0.%d' % (k + 1), port[0])) if backend is not None
+                                   else sim.Session(dev, ('127.0.0.%d' % (k + 1), port[0])))
             return s
 
         classes = set()
@@ -413,3 +466,45 @@ def run_history(case, stats, pid, clause):
         stats.case(case, nontrivial=nontrivial, classes=sorted(classes))
     finally:
         dev.close()
+
+
+# ------------------------------------------------------------------------------------------------
+# TCP engine shared by C03 / C05: one generated configuration per worker process, served by enip.main.main()
+
+_TCP = {}
+
+
+def tcp_specs(seed, i):
+    """The tag configuration of TCP shard i: drawn deterministically from the seed."""
+    import hypothesis
+    from hypothesis import given
+    got = []
+
+    @hypothesis.seed(common.shard_seed(seed, 500 + i))
+    @common.hyp_settings(3)
+    @given(specs_strategy(allow_big=False))
+    def draw(specs):
+        got.append(specs)
+
+    draw()
+    return got[-1]
+
+
+def pred_tcp(case, stats, pid):
+    import os
+    key = common.canon(case['specs'])
+    if _TCP.get('pid') != os.getpid() or _TCP.get('key') != key:
+        if _TCP.get('pid') == os.getpid():
+            raise common.HarnessError('one TCP configuration per process')
+        sim.TcpServer._started = False
+        _TCP.update(pid=os.getpid(), key=key, backend=TcpBackend(case['specs']))
+    run_history(case, stats, pid, 'tcp-history', backend=_TCP['backend'])
+
+
+def tcp_shard(pid, mode, seed, i, n, max_ops, pred):
+    specs = tcp_specs(seed, i)
+    s = common.Stats()
+    strat = st.lists(step_strategy(specs, mode), min_size=1, max_size=max_ops).map(lambda ops: {'specs': specs, 'ops': ops})
+    common.hyp_run(s, strat, pred, n, common.shard_seed(seed, 600 + i), 'tcp-history', pid, shrink=False)
+    s.count('tcp:configurations')
+    return s
